@@ -721,4 +721,86 @@ class ExprMixin:
         return R
 
     def alloc_comprehension(self, elt, g, src, inner, fr, node):
-        return None
+        """[C(args) for x in seq] / [x.m(args) for x in seq] where the callee has an allocating contract without other
+        heap effects: the i-th call allocates its own block of fresh objects; ensures are assumed per index."""
+        if not isinstance(elt, ast.Call) or fr.spec:
+            return None
+        iv = self.fresh_int('ci')
+        inner.noforks = True
+        self.bind_target(g.target, seq_get(src, iv), inner)
+        try:
+            fnv = self.ev(elt.func, inner)
+        except Unsupported:
+            return None
+        ctor = False
+        fi = None
+        if isinstance(fnv, VCallable) and fnv.kind == 'class':
+            c = self.reg.get(f"{fnv.cls}.__init__")
+            fi = self.repo.lookup_method(fnv.cls, '__init__')
+            ctor = True
+            rcls = fnv.cls
+        elif isinstance(fnv, VCallable) and fnv.kind == 'bound' and isinstance(fnv.selfv, VRef):
+            c = self._mro_contract(fnv.selfv.cls, fnv.name)
+            fi = self.repo.lookup_method(fnv.selfv.cls, fnv.name) if fnv.selfv.cls in self.repo.classes else None
+            if c is None or not c.allocates or c.returns is None:
+                return None
+            rcls = parse_type(c.returns).cls
+        else:
+            return None
+        if c is None or c.modifies or c.may_raise or any(v is not None for v in c.raises.values()):
+            return None
+        args, kwargs = self.eval_args(elt, inner)
+        n = src.n
+        self.assume(n >= 0)
+        guard = z3.And(iv >= 0, iv < n)
+        base = self.alloc
+        if ctor:
+            refz = base + iv
+            newalloc = z3.simplify(base + n)
+            result = VRef(refz, rcls, nullable=False)
+            self.assume(z3.ForAll([iv], z3.Implies(guard, self.cls_of(refz) == self.repo.class_ids[rcls])))
+            selfarg = [result]
+        else:
+            blk = z3.Function(self.fresh_name('blk'), I, I)
+            refz = blk(iv)
+            newalloc = self.fresh_int('alloc')
+            jv = self.fresh_int('cj')
+            self.assume(newalloc >= base)
+            self.assume(z3.ForAll([iv], z3.Implies(guard, z3.And(blk(iv) >= base, blk(iv) < newalloc))))
+            self.assume(z3.ForAll([iv, jv], z3.Implies(z3.And(iv >= 0, iv < jv, jv < n), blk(iv) < blk(jv))))
+            result = VRef(refz, rcls, nullable=False)
+            selfarg = [fnv.selfv]
+        bound = self.bind_contract(c, selfarg + list(args), kwargs, fi)
+        sf = Frame(fi, fi.cls if fi else None, dict(bound), spec=True)
+        sf.module = fi.module if fi else fr.module
+        sf.noforks = True
+        sf.entry_vars = dict(bound)
+        sf.old_heap = dict(self.heap)
+        sf.alloc_before = base
+        for pre in c.requires:
+            gpre = self.ev_spec(pre, sf)
+            self.oblige('pre@call', z3.ForAll([iv], z3.Implies(guard, gpre)), fr, elt, info=f"{c.key}: {pre} (each element)")
+        for pn, ts in c.params.items():
+            ty = parse_type(ts)
+            v = bound.get(pn)
+            if ty.kind == 'ref' and isinstance(v, VRef) and not (ctor and v is result):
+                conds = []
+                if not ty.nullable:
+                    conds.append(v.z != 0)
+                if ty.cls in self.repo.classes and not (v.cls and self.repo.is_subclass(v.cls, ty.cls)):
+                    conds.append(z3.Or(v.z == 0, self.isinstance_z(v, ty.cls)))
+                if conds:
+                    self.oblige('pre@call', z3.ForAll([iv], z3.Implies(guard, z3.And(conds))), fr, elt,
+                                info=f"{c.key}: type of {pn} (each element)")
+        self.alloc = newalloc
+        if not ctor:
+            sf.vars['result'] = result
+            rty = parse_type(c.returns)
+            if rty.cls in self.repo.classes:
+                self.assume(z3.ForAll([iv], z3.Implies(guard, self.isinstance_z(VRef(refz, None), rty.cls))))
+        for post in c.ensures:
+            self.assume(z3.ForAll([iv], z3.Implies(guard, self.ev_spec(post, sf))))
+        R = fresh(Ty('seq', elem=Ty('ref', cls=rcls, nullable=False), skind='list'), self.fresh_name('comp'))
+        self.assume(R.n == n)
+        self.assume(z3.ForAll([iv], z3.Implies(guard, z3.Select(R.elem.z, iv) == refz)))
+        return R
